@@ -10,10 +10,10 @@ of coefficient `t` of the limb column `c` at radix `2^b` (last limb weight 1), s
 `X`), `NormL.TorusEq` equality on R/Z.  Head-room: `NormL.HeadRoom bits b 0 H` (C08).
 
 /- FULL STATEMENT (not proved as one theorem):
-   (1) `glwe_encrypt_sk_phase` for a plaintext whose radix differs from the ciphertext's: FALSE for the
-       code as it is — `glwe_encrypt_sk` / `glwe_compressed_encrypt_sk` / `lwe_encrypt_sk` add the
-       plaintext limbs without looking at `pt.base2k` (`glwe_encrypt_sk_radix_counterexample`);
-       the theorem is therefore stated for message limbs given in the ciphertext's radix.
+   (1) message position for a plaintext whose radix differs from the ciphertext's: the routines add the
+       plaintext limbs as they are; since the repair they assert equal radices (as `glwe_encrypt_pk`
+       always did), so such a call is a panic (`encrypt_sk_radix_mismatch_panics`) and
+       `glwe_encrypt_sk_phase` carries the hypothesis `ptB = b`.  Decryption converts radices.
    (2) `glwe_encrypt_pk_phase`: phase − m = u⋆e_pk + e_0 + Σ e_i⋆s_i (mod 1).  Proved: the column
        identity `glwe_encrypt_pk_columns_partial` (every column is u⋆pk_i + e_i (+ m) exactly mod 1)
        and the norm inequality `negMul_norm_inequality`; the re-association
@@ -23,7 +23,7 @@ of coefficient `t` of the limb column `c` at radix `2^b` (last limb weight 1), s
        value property `NormSpec` of the cross-radix `vec_znx_big_normalize` (C08 states it as
        `normalize_cross_value`, not proved there either; the executable model is fully tied). -/
 -/
-import Poulpy.Lemmas.CoreEncDec
+import Poulpy.Lemmas.CoreEncLwe
 
 namespace C01
 open NormL CoreEnc
@@ -42,19 +42,19 @@ theorem glwe_encrypt_sk_phase {bits b n size kxe k : Nat} {H E M : Int}
     (hk : 1 ≤ kxe) (hlimb : errLimb kxe b < size)
     (masks : List Col) (sk : List Poly) (m : Option Col) (e : Poly)
     (hlen : masks.length = sk.length) (hmasks : ∀ a ∈ masks, a.length = size ∧ WF n a)
-    (hprod : ProdBounded H masks sk)
+    (hprod : ProdBounded H masks sk) (ptB : Nat) (hradix : m.isSome → ptB = b)
     (hm : ∀ p, m = some p → WF n p ∧ CoefBounded n M p) (hM0 : 0 ≤ M)
     (he : e.length = n) (hE0 : 0 ≤ E) (heB : ∀ x ∈ e, |x| ≤ E)
     (hsum : (masks.length : Int) * 2 ^ (b - 1) + E + M ≤ 2 ^ 62) :
-    ∃ body, Core.glweEncryptSk bits b k n size kxe masks m sk e = some { base2k := b, k := k, n := n, cols := body :: masks } ∧
+    ∃ body, Core.glweEncryptSk bits b k n size kxe masks m ptB sk e = some { base2k := b, k := k, n := n, cols := body :: masks } ∧
       body.length = size ∧ WF n body ∧ Bounded (2 ^ (b - 1)) body ∧
       ∀ t, t < n → ∃ K : Int, Core.valCoeff b (Core.phaseBig sk { base2k := b, k := k, n := n, cols := body :: masks }) t =
         msgCoeff b n size m t + e.getD t 0 * 2 ^ (b * (size - 1 - errLimb kxe b)) + K * 2 ^ (b * size) :=
-  encryptSk_phase hbits hr hb1 hb hk hlimb masks sk m e hlen hmasks hprod hm hM0 he hE0 heB hsum
+  encryptSk_phase hbits hr hb1 hb hk hlimb masks sk m e hlen hmasks hprod ptB hradix hm hM0 he hE0 heB hsum
 
 /-- non-vacuity: N = 2, rank 1, radix 2^3, two limbs, a one-limb message, noise precision 5
 (target limb 1, scale 2), NTT120 accumulator -/
-example : ∃ ct, Core.glweEncryptSk 128 3 6 2 2 5 [[[1, -2], [3, 0]]] (some [[1, 2]]) [[1, -1]] [1, -1] = some ct ∧
+example : ∃ ct, Core.glweEncryptSk 128 3 6 2 2 5 [[[1, -2], [3, 0]]] (some [[1, 2]]) 3 [[1, -1]] [1, -1] = some ct ∧
     ∀ t, t < 2 → ∃ K : Int, Core.valCoeff 3 (Core.phaseBig [[1, -1]] ct) t =
       msgCoeff 3 2 2 (some [[1, 2]]) t + ([1, -1] : Poly).getD t 0 * 2 ^ (3 * (2 - 1 - errLimb 5 3)) + K * 2 ^ (3 * 2) := by
   have hr : HeadRoom 128 3 0 (2 ^ 62) := ⟨by norm_num, by norm_num, by norm_num, by norm_num, by norm_num⟩
@@ -69,6 +69,7 @@ example : ∃ ct, Core.glweEncryptSk 128 3 6 2 2 5 [[[1, -2], [3, 0]]] (some [[1
       rw [this] at hl
       simp at hl
       rcases hl with rfl | rfl <;> simp at hx <;> rcases hx with rfl | rfl <;> norm_num)
+    3 (fun _ => rfl)
     (by
       intro p hp; simp at hp; subst hp
       refine ⟨by intro l hl; simp at hl; subst hl; rfl, ?_⟩
@@ -212,17 +213,17 @@ theorem glwe_encrypt_decrypt_sk {bits b n size kxe k : Nat} {H E M : Int}
     (hk : 1 ≤ kxe) (hlimb : errLimb kxe b < size)
     (masks : List Col) (sk : List Poly) (m : Option Col) (e : Poly)
     (hlen : masks.length = sk.length) (hmasks : ∀ a ∈ masks, a.length = size ∧ WF n a)
-    (hprod : ProdBounded H masks sk)
+    (hprod : ProdBounded H masks sk) (ptB : Nat) (hradix : m.isSome → ptB = b)
     (hm : ∀ p, m = some p → WF n p ∧ CoefBounded n M p) (hM0 : 0 ≤ M)
     (he : e.length = n) (hE0 : 0 ≤ E) (heB : ∀ x ∈ e, |x| ≤ E)
     (hsum : (masks.length : Int) * 2 ^ (b - 1) + E + M ≤ 2 ^ 62)
     (ptSize : Nat)
-    (hphase : ∀ ct, Core.glweEncryptSk bits b k n size kxe masks m sk e = some ct → Bounded H (Core.phaseBig sk ct)) :
-    ∃ ct pt, Core.glweEncryptSk bits b k n size kxe masks m sk e = some ct ∧ Core.glweDecrypt bits ct sk b ptSize = some pt ∧
+    (hphase : ∀ ct, Core.glweEncryptSk bits b k n size kxe masks m ptB sk e = some ct → Bounded H (Core.phaseBig sk ct)) :
+    ∃ ct pt, Core.glweEncryptSk bits b k n size kxe masks m ptB sk e = some ct ∧ Core.glweDecrypt bits ct sk b ptSize = some pt ∧
       pt.length = ptSize ∧ Bounded (2 ^ (b - 1)) pt ∧
       ∀ t, t < n → TorusNear (Core.valCoeff b pt t) (b * ptSize)
         (msgCoeff b n size m t + e.getD t 0 * 2 ^ (b * (size - 1 - errLimb kxe b))) (b * size) := by
-  obtain ⟨body, h1, h2, h3, _, h5⟩ := glwe_encrypt_sk_phase (k := k) hbits hr hb1 hb hk hlimb masks sk m e hlen hmasks hprod hm hM0 he hE0 heB hsum
+  obtain ⟨body, h1, h2, h3, _, h5⟩ := glwe_encrypt_sk_phase (k := k) hbits hr hb1 hb hk hlimb masks sk m e hlen hmasks hprod ptB hradix hm hM0 he hE0 heB hsum
   obtain ⟨pt, d1, d2, _, d4, d5⟩ := glwe_decrypt_value hbits hr (by omega) { base2k := b, k := k, n := n, cols := body :: masks } sk ptSize rfl
     (by simp [Core.GLWE.rank, hlen]) (hphase _ h1)
   refine ⟨_, pt, h1, d1, d2, d4, ?_⟩
@@ -236,12 +237,12 @@ theorem glwe_encrypt_decrypt_sk {bits b n size kxe k : Nat} {H E M : Int}
   exact torusNear_of_eq this K hK
 
 /-- non-vacuity of `glwe_encrypt_decrypt_sk`: the instance of the first example, decrypted into one limb -/
-example : ∃ ct pt, Core.glweEncryptSk 128 3 6 2 2 5 [[[1, -2], [3, 0]]] (some [[1, 2]]) [[1, -1]] [1, -1] = some ct ∧
+example : ∃ ct pt, Core.glweEncryptSk 128 3 6 2 2 5 [[[1, -2], [3, 0]]] (some [[1, 2]]) 3 [[1, -1]] [1, -1] = some ct ∧
     Core.glweDecrypt 128 ct [[1, -1]] 3 1 = some pt ∧
     ∀ t, t < 2 → TorusNear (Core.valCoeff 3 pt t) (3 * 1)
       (msgCoeff 3 2 2 (some [[1, 2]]) t + ([1, -1] : Poly).getD t 0 * 2 ^ (3 * (2 - 1 - errLimb 5 3))) (3 * 2) := by
   have hr : HeadRoom 128 3 0 (2 ^ 62) := ⟨by norm_num, by norm_num, by norm_num, by norm_num, by norm_num⟩
-  have henc : Core.glweEncryptSk 128 3 6 2 2 5 [[[1, -2], [3, 0]]] (some [[1, 2]]) [[1, -1]] [1, -1]
+  have henc : Core.glweEncryptSk 128 3 6 2 2 5 [[[1, -2], [3, 0]]] (some [[1, 2]]) 3 [[1, -1]] [1, -1]
       = some { base2k := 3, k := 6, n := 2, cols := [[[2, -3], [-2, 2]], [[1, -2], [3, 0]]] } := by rfl
   obtain ⟨ct, pt, h1, h2, _, _, h5⟩ := glwe_encrypt_decrypt_sk (bits := 128) (b := 3) (n := 2) (size := 2) (kxe := 5) (k := 6)
     (H := 2 ^ 62) (E := 1) (M := 2) (Or.inr rfl) hr (by norm_num) (by norm_num) (by norm_num) (by decide)
@@ -254,6 +255,7 @@ example : ∃ ct pt, Core.glweEncryptSk 128 3 6 2 2 5 [[[1, -2], [3, 0]]] (some 
       rw [this] at hl
       simp at hl
       rcases hl with rfl | rfl <;> simp at hx <;> rcases hx with rfl | rfl <;> norm_num)
+    3 (fun _ => rfl)
     (by
       intro p hp; simp at hp; subst hp
       refine ⟨by intro l hl; simp at hl; subst hl; rfl, ?_⟩
@@ -275,23 +277,75 @@ example : ∃ ct pt, Core.glweEncryptSk 128 3 6 2 2 5 [[[1, -2], [3, 0]]] (some 
       rcases hl with rfl | rfl <;> simp at hx <;> rcases hx with rfl | rfl <;> norm_num)
   exact ⟨ct, pt, h1, h2, h5⟩
 
-/-! ### the plaintext's radix is ignored by secret-key encryption (finding) -/
+/-! ### LWE -/
 
-/-- **the message-position clause is false for a plaintext of another radix**: `glwe_encrypt_sk`
-adds the plaintext limbs as they are.  A one-limb plaintext `[1]` of radix 2^1 (torus value 1/2),
-encrypted without noise into a one-limb, rank-0 ciphertext of radix 2^2, has phase `1/4`.
-(`lwe_encrypt_sk` and `glwe_compressed_encrypt_sk` share the code path; `glwe_encrypt_pk` asserts
-equal radices.) -/
-theorem glwe_encrypt_sk_radix_counterexample :
-    ∃ ct, Core.glweEncryptSk 64 2 2 1 1 2 [] (some [[1]]) [] [0] = some ct ∧
-      ¬ TorusEq (Core.valCoeff 2 (Core.phaseBig [] ct) 0) (2 * 1) (Core.valCoeff 1 [[1]] 0) (1 * 1) := by
-  refine ⟨{ base2k := 2, k := 2, n := 1, cols := [[[1]]] }, by rfl, ?_⟩
-  rintro ⟨k, hk⟩
-  have h1 : Core.valCoeff 2 (Core.phaseBig [] { base2k := 2, k := 2, n := 1, cols := [[[1]]] }) 0 = 1 := by decide
-  have h2 : Core.valCoeff 1 [[1]] 0 = 1 := by decide
-  rw [h1, h2] at hk
-  norm_num at hk
-  omega
+/-- **`lwe_encrypt_sk` phase identity**: for every LWE dimension, radix `1 ≤ b ≤ 61`, size, noise precision with
+an existing target limb, plaintext limbs of any number (in the ciphertext's radix), filled buffer, secret and
+error within head-room (`P + D + E ≤ 2^62`: plaintext limbs, inner products, error): the encryption succeeds,
+keeps the mask coefficients of the filled buffer, and the exact limb-wise phase `body + ⟨mask, s⟩` equals the
+message truncated / zero-extended to the ciphertext size plus `e·2^(b(size−1−limb))`, modulo `2^(b·size)`. -/
+theorem lwe_encrypt_sk_phase {b size kxe : Nat} {P D E : Int} (hb1 : 1 ≤ b) (hb : b ≤ 61) (hk : 1 ≤ kxe) (hlimb : errLimb kxe b < size)
+    (filled : Col) (hf : filled.length = size) (pt : List Int) (sk : Poly) (e : Int)
+    (hP : ∀ i, |pt.getD i 0| ≤ P) (hD : ∀ l ∈ filled, |dotZ (l.drop 1) sk| ≤ D) (hE : |e| ≤ E)
+    (hP0 : 0 ≤ P) (hD0 : 0 ≤ D) (hE0 : 0 ≤ E) (hsum : P + D + E ≤ 2 ^ 62) :
+    ∃ ct, Core.lweEncryptSk b size kxe filled pt b sk e = some ct ∧ ct.length = size ∧
+      (∀ i (h : i < ct.length) (h' : i < filled.length), (ct[i]).drop 1 = (filled[i]).drop 1) ∧
+      ∃ K : Int, valI b (lwePhaseBig ct sk) = valI b (lweMsg size pt) + e * 2 ^ (b * (size - 1 - errLimb kxe b)) + K * 2 ^ (b * size) :=
+  lweEncryptSk_phase hb1 hb hk hlimb filled hf pt sk e hP hD hE hP0 hD0 hE0 hsum
+
+/-- non-vacuity: LWE dimension 2, radix 2^3, two limbs, one plaintext limb, noise precision 5 -/
+example : ∃ ct, Core.lweEncryptSk 3 2 5 [[0, 1, -2], [9, 3, 0]] [2] 3 [1, -1] (-1) = some ct ∧
+    ∃ K : Int, valI 3 (lwePhaseBig ct [1, -1]) = valI 3 (lweMsg 2 [2]) + (-1) * 2 ^ (3 * (2 - 1 - errLimb 5 3)) + K * 2 ^ (3 * 2) := by
+  obtain ⟨ct, h1, _, _, h2⟩ := lwe_encrypt_sk_phase (b := 3) (size := 2) (kxe := 5) (P := 2) (D := 3) (E := 1) (by norm_num) (by norm_num)
+    (by norm_num) (by decide) [[0, 1, -2], [9, 3, 0]] rfl [2] [1, -1] (-1)
+    (by intro i; rcases i with _ | i <;> simp)
+    (by intro l hl; simp at hl; rcases hl with rfl | rfl <;> simp [dotZ])
+    (by norm_num) (by norm_num) (by norm_num) (by norm_num) (by norm_num)
+  exact ⟨ct, h1, h2⟩
+
+/-- **`lwe_decrypt` = normalisation of the exact phase** when the accumulation does not wrap -/
+theorem lwe_decrypt_is_normalized_phase (b : Nat) (ct : Col) (sk : Poly) (pb ps : Nat)
+    (hD : ∀ l ∈ ct, |dotZ (l.drop 1) sk| < 2 ^ 63) (hP : ∀ l ∈ ct, |l.getD 0 0 + dotZ (l.drop 1) sk| < 2 ^ 63) :
+    Core.lweDecrypt b ct sk pb ps = normalizeCol? pb ps 0 ((lwePhaseBig ct sk).map (fun x => [x])) b 1 := by
+  unfold Core.lweDecrypt lwePhaseBig
+  rw [List.map_map]
+  have hmap : List.map (fun l => [w64 (List.getD l 0 0 + Core.dotW (List.drop 1 l) sk)]) ct
+      = List.map ((fun x => [x]) ∘ fun l => List.getD l 0 0 + dotZ (List.drop 1 l) sk) ct := by
+    apply List.map_congr_left
+    intro l hl
+    simp only [Function.comp, dotW_eq, w64_id (hD l hl), w64_id (hP l hl)]
+  simp only [hmap]
+
+example : Core.lweDecrypt 3 [[1, 1, -2], [3, 3, 0]] [1, -1] 3 1
+    = normalizeCol? 3 1 0 ((lwePhaseBig [[1, 1, -2], [3, 3, 0]] [1, -1]).map (fun x => [x])) 3 1 :=
+  lwe_decrypt_is_normalized_phase 3 _ _ 3 1
+    (by intro l hl; simp at hl; rcases hl with rfl | rfl <;> simp [dotZ])
+    (by intro l hl; simp at hl; rcases hl with rfl | rfl <;> simp [dotZ])
+
+/-! ### a plaintext of another radix is refused -/
+
+/-- **a plaintext whose radix differs from the ciphertext's is refused** (the assertion added to
+`glwe_encrypt_sk_internal` / `lwe_encrypt_sk` by the repair of finding
+`glwe_encrypt_sk/lwe_encrypt_sk:plaintext-base2k-ignored`): the routines add the plaintext limbs as they
+are, so the message-position clause can only hold for limbs given in the ciphertext's radix; every other
+call is a panic, never a silently misplaced message.  Holds for `glwe_encrypt_sk`, its stream form, the
+compressed form and `lwe_encrypt_sk`. -/
+theorem encrypt_sk_radix_mismatch_panics (bits b k n size kxe rank : Nat) (masks : List Col) (p : Col) (ptB : Nat) (hne : ptB ≠ b)
+    (sk : List Poly) (xa : List Nat) (e : Poly) (filled : Col) (ptl : List Int) (skl : Poly) (el : Int) :
+    Core.glweEncryptSk bits b k n size kxe masks (some p) ptB sk e = none ∧
+    Core.glweEncryptSkS bits b k n size kxe rank (some p) ptB sk xa e = none ∧
+    Core.glweEncryptCompressed bits b k n size kxe rank (some p) ptB sk xa e = none ∧
+    Core.lweEncryptSk b size kxe filled ptl ptB skl el = none := by
+  have hok : Core.ptRadixOk (some p) ptB b = false := by simp [Core.ptRadixOk, hne]
+  refine ⟨?_, ?_, ?_, ?_⟩
+  · unfold Core.glweEncryptSk; split <;> simp [hok]
+  · unfold Core.glweEncryptSkS; split <;> simp [hok]
+  · unfold Core.glweEncryptCompressed; split <;> simp [hok]
+  · unfold Core.lweEncryptSk; simp [hne]
+
+/-- the instance that used to be the counterexample: a radix-2^1 plaintext handed to a radix-2^2 ciphertext -/
+example : Core.glweEncryptSk 64 2 2 1 1 2 [] (some [[1]]) 1 [] [0] = none :=
+  (encrypt_sk_radix_mismatch_panics 64 2 2 1 1 2 0 [] [[1]] 1 (by decide) [] [] [0] [] [] [] 0).1
 
 /-! ### the norm inequality used by the public-key bound -/
 
